@@ -1,3 +1,4 @@
+import HeraProofs.Props.C02
 import HeraProofs.Props.C03
 import HeraProofs.Props.C05
 import HeraProofs.Props.C09
